@@ -828,6 +828,8 @@ func replay(c *core.Ctx) {
 		k.afterFailedWrite()
 	case "after-failed-read":
 		k.afterFailedRead()
+	case "sinks":
+		k.sinks()
 	case "load-after-replace":
 		k.loadAfterReplace()
 	case "save-over":
